@@ -53,20 +53,10 @@ impl core::ops::BitXor for Sgn0Result {
     u.add("}")
     QM3D4 = (Q - 3) // 4
     QM1D2 = (Q - 1) // 2
-    u.add(f"""impl Fq2 {{
-    // Field::pow with a six-limb exponent (ff's generic pow, C08): only the two exponents of Algorithm 9 are admitted
-    #[verifier::external_body]
-    pub fn pow(&self, exp: [u64; 6]) -> (ret: Fq2)
-        requires limbs_val(exp@) == {hex(QM3D4)}nat || limbs_val(exp@) == {hex(QM1D2)}nat
-        ensures ret.v() == f2pow(self.v(), limbs_val(exp@) as int)
-    {{ unimplemented!() }}
-}}
-// powers and the ring laws of the schoolbook product that the algebra of Algorithm 9 needs (Fq2 is a commutative ring; the laws are polynomial identities in the coefficients)
-pub uninterp spec fn f2pow(x: F2, e: int) -> F2;
-#[verifier::external_body]
-pub proof fn ax_f2pow_mul(x: F2, a: int, b: int) requires a >= 0, b >= 0 ensures f2mul(f2pow(x, a), f2pow(x, b)) == f2pow(x, a + b) {{}}
-#[verifier::external_body]
-pub proof fn ax_f2pow_one(x: F2) requires f2in(x) ensures f2pow(x, 1) == x {{}}
+    u.add(f"""impl AsRefU64 for [u64; 6] {{ open spec fn limbs(&self) -> Seq<u64> {{ self@ }} }}
+// x^e in Fq2 by the defining recursion
+#[verifier::opaque]
+pub open spec fn f2pow(x: F2, e: int) -> F2 decreases e {{ if e <= 0 {{ f2one() }} else {{ f2mul(f2pow(x, e - 1), x) }} }}
 // ring laws of the schoolbook product (proved from the definitions; % Q() is removed with vstd's modular lemmas, the rest is a polynomial identity)
 pub proof fn ax_f2mul_comm(a: F2, b: F2) ensures f2mul(a, b) == f2mul(b, a)
 {{
@@ -158,6 +148,30 @@ pub proof fn ax_u_squared() ensures f2mul(f2(0, 1), f2(0, 1)) == f2neg(f2one())
     lemma_small_mod(1, Q() as nat);
     lemma_mod_add_multiples_vanish(0 - 1, Q());
 }}
+pub proof fn lemma_f2mul_in(a: F2, b: F2) ensures f2in(f2mul(a, b))
+{{ reveal(f2mul); ax_q_pos(); lemma_mod_bound(fmul(a.c0, b.c0) - fmul(a.c1, b.c1), Q()); lemma_mod_bound(fmul(a.c0, b.c1) + fmul(a.c1, b.c0), Q()); }}
+pub proof fn lemma_f2pow_in(x: F2, e: int) ensures f2in(f2pow(x, e))
+{{ reveal_with_fuel(f2pow, 2); if e <= 0 {{ reveal(f2one); ax_q_pos(); }} else {{ lemma_f2mul_in(f2pow(x, e - 1), x); }} }}
+pub proof fn ax_f2pow_one(x: F2) requires f2in(x) ensures f2pow(x, 1) == x
+{{ reveal_with_fuel(f2pow, 3); ax_f2mul_one(x); }}
+pub proof fn ax_f2pow_mul(x: F2, a: int, b: int) requires a >= 0, b >= 0 ensures f2mul(f2pow(x, a), f2pow(x, b)) == f2pow(x, a + b) decreases b
+{{
+    reveal_with_fuel(f2pow, 2);
+    if b == 0 {{ lemma_f2pow_in(x, a); ax_f2mul_one(f2pow(x, a)); }}
+    else {{
+        ax_f2pow_mul(x, a, b - 1);
+        ax_f2mul_assoc(f2pow(x, a), f2pow(x, b - 1), x);
+        assert(f2pow(x, a + b) == f2mul(f2pow(x, a + b - 1), x));
+    }}
+}}
+// the bit-serial step of square-and-multiply
+pub proof fn lemma_f2pow_step(x: F2, e: int, bit: bool) requires e >= 0
+    ensures f2pow(x, 2 * e + (if bit {{ 1int }} else {{ 0int }})) == (if bit {{ f2mul(f2sq(f2pow(x, e)), x) }} else {{ f2sq(f2pow(x, e)) }})
+{{
+    reveal(f2sq); reveal_with_fuel(f2pow, 2);
+    ax_f2pow_mul(x, e, e);
+    if bit {{ assert(f2pow(x, 2 * e + 1) == f2mul(f2pow(x, 2 * e), x)); }}
+}}
 // (x y)(x y) == (x x)(y y)
 pub proof fn lemma_sq_prod(x: F2, y: F2) ensures f2mul(f2mul(x, y), f2mul(x, y)) == f2mul(f2mul(x, x), f2mul(y, y))
 {{
@@ -168,6 +182,25 @@ pub open spec fn sqrt_e(a: F2) -> F2 {{
     let al = f2pow(a, {hex(QM1D2)}int);
     if al == f2neg(f2one()) {{ f2one() }} else {{ f2mul(f2sq(f2pow(f2add(al, f2one()), {hex(QM1D2)}int)), al) }}
 }}""")
+    from units.ffdep import ff_source
+    from vx import driver
+    import os
+    ffs, ver = ff_source(os.path.join(driver.REPO, 'Cargo.lock'))
+    uu = Unit('ffpow2', ffs)
+    it_spec = dict(invariant=("        invariant {it}.t == exp, v0 == {it}.val(), {it}.n <= 64 * 6, res.v() == f2pow(self.v(), (v0 / pow2({it}.n as nat)) as int), found_one == (v0 / pow2({it}.n as nat) > 0),\n"
+                              "            !found_one ==> res.v() == f2one()\n        ensures {it}.n == 0\n        decreases {it}.n"),
+                   ghost_before="proof { lemma_limbs_bound({it}.t.limbs()); lemma_small_div({it}.val(), pow2({it}.n as nat)); reveal_with_fuel(f2pow, 2); } let ghost v0 = {it}.val();",
+                   ghost_arm="proof { reveal(f2one); ax_q_pos(); reveal(f2sq); reveal_with_fuel(f2pow, 2); lemma_f2in(self); ax_f2mul_one(self.v()); assert(f2in(f2one())); ax_f2mul_one(f2one()); }", ghost_after="proof { assert(pow2(0) == 1); }")
+
+    def pow_edit(b):
+        b = weave.rewrite_for_iter(b, uu.rewrites, [it_spec])
+        for k, v in uu.rewrites.items():
+            u.rewrites[k] = u.rewrites.get(k, 0) + v
+        return re.sub(r'Some\(i\) => \{', 'Some(i) => { proof { lemma_div_step(v0, (it1.n + 1) as nat); lemma_f2pow_step(self.v(), (v0 / pow2((it1.n + 1) as nat)) as int, i); }', b, count=1)
+    pt = uu.real_fn('', 're:pub trait Field:', 'pow', "    ensures ret.v() == f2pow(self.v(), limbs_val(exp@) as int)", ret='ret', vis='pub', body_edit=pow_edit,
+                    sig_edit=lambda sg: re.sub(r'<S:\s*AsRef<\[u64\]>>', '', sg).replace('exp: S', 'exp: [u64; 6]'))
+    u.functions.append(f"ff-zeroize-{ver}|trait Field|pow@Fq2")
+    u.add("impl Fq2 {\n" + pt + "}")
     u.add(u.real_const('fq', 'NEGATIVE_ONE'))
     u.add("impl Fq2 {")
     u.add(u.real_fn('fq2', 'impl Signum0 for Fq2', 'sgn0', "    ensures sgn_neg(ret) == sgn0_2(self.v())", vis='pub'))
